@@ -440,6 +440,11 @@ class APEv2(_CIDictProxy, Metadata):
         num_tags = len(tags)
         tags = b"".join(tags)
 
+        if not num_tags:
+            # An empty tag is read back as "no tag" (and thus could not be
+            # deleted again), so don't write one.
+            return
+
         header = bytearray(b"APETAGEX")
         # version, tag size, item count, flags
         header += struct.pack("<4I", 2000, len(tags) + 32, num_tags,
